@@ -233,6 +233,11 @@ pub struct RtScn {
     /// the other: every message arrives, then end-of-stream, on both sides.
     #[serde(default)]
     pub duplex: bool,
+    /// Serde media only: both ends frame with a 2-byte length prefix (a `length_delimited`
+    /// builder handed to `serde_transport::new`). A message too long for that prefix is refused
+    /// when it is handed to the sink; whatever was accepted must arrive intact and in order.
+    #[serde(default)]
+    pub narrow: bool,
 }
 
 const PREFACE: &[u8] = b"tarpc-sim preface frame";
@@ -348,6 +353,19 @@ pub fn gen_roundtrip(rng: &mut Rng) -> BytesScn {
                     _ => {}
                 }
             }
+        } else if serde && r.msgs.len() <= 40 && r.pipe.max_read == 0 && rng.chance(100) {
+            r.narrow = true;
+            r.preface = false;
+            r.optional_fields = false;
+            r.back_msgs = 0;
+            // now and then a body that no 2-byte prefix can express, anywhere in the sequence
+            if !r.msgs.is_empty() && rng.chance(600) {
+                let at = rng.below(r.msgs.len() as u64) as usize;
+                match &mut r.msgs[at] {
+                    MsgSpec::Req { body, .. } | MsgSpec::RespOk { body, .. } | MsgSpec::RespErr { detail: body, .. } => *body = BodySpec::Large(64),
+                    _ => {}
+                }
+            }
         }
     }
     scn
@@ -431,6 +449,7 @@ fn gen_roundtrip_inner(rng: &mut Rng) -> BytesScn {
         back_msgs: if !long_backlog && rng.chance(300) { rng.range(1, 3) as u8 } else { 0 },
         preface: matches!(medium_is_serde, true) && rng.chance(250),
         duplex: false,
+        narrow: false,
     })
 }
 
@@ -505,6 +524,24 @@ struct RtShared {
     back_write_err: Option<String>,
     reader_done: Option<Result<(), String>>,
     enc_times: Vec<(i128, i128)>, // (deadline_us at build, encode time us)
+    /// indices of messages the narrow framing refused at the sink
+    refused: Vec<usize>,
+}
+
+fn rt_codec(narrow: bool) -> LengthDelimitedCodec {
+    if narrow {
+        LengthDelimitedCodec::builder().length_field_length(2).new_codec()
+    } else {
+        LengthDelimitedCodec::new()
+    }
+}
+
+/// Does the spec carry a body that cannot fit a frame with a 2-byte length prefix?
+fn too_long_for_narrow(m: &MsgSpec) -> bool {
+    match m {
+        MsgSpec::Req { body, .. } | MsgSpec::RespOk { body, .. } | MsgSpec::RespErr { detail: body, .. } => matches!(body, BodySpec::Large(k) if *k >= 64),
+        MsgSpec::Cancel { .. } => false,
+    }
 }
 
 async fn write_all<M: Wire, S, E>(sim: Rc<Sim>, mut sink: S, scn: RtScn, sh: Rc<RefCell<RtShared>>, raw: Option<pipe::DirRef>)
@@ -527,6 +564,15 @@ where
         sh.borrow_mut().enc_times.push((n.deadline_us, sim.now_ms() as i128 * 1000));
         sim.log(EvKind::Note { what: "enc", a: i as i64, b: sim.now_ms() });
         let r = if scn.batch { sink.feed(msg).await } else { sink.send(msg).await };
+        if r.is_err() && scn.narrow && too_long_for_narrow(m) {
+            // refused, as it must be; the sink stays usable
+            sim.count("probe.message_refused_by_narrow_framing");
+            sim.log(EvKind::Note { what: "refused", a: i as i64, b: 0 });
+            let mut s = sh.borrow_mut();
+            s.enc_times.pop();
+            s.refused.push(i);
+            continue;
+        }
         if let Err(e) = r {
             sim.log(EvKind::Note { what: "write_err", a: i as i64, b: 0 });
             sh.borrow_mut().reader_done.get_or_insert(Err(format!("writer error: {e:?}")));
@@ -753,7 +799,7 @@ where
 /// Builds the reading end's `Framed` and, if the scenario has a preface, consumes it the way an
 /// application-level handshake would: from the `Framed` itself, before the serde transport wraps it.
 async fn take_preface(sim: &Rc<Sim>, end: End, scn: &RtScn, sh: &Rc<RefCell<RtShared>>) -> Option<(Framed<End, LengthDelimitedCodec>, u64)> {
-    let mut f = Framed::new(end, LengthDelimitedCodec::new());
+    let mut f = Framed::new(end, rt_codec(scn.narrow));
     if !scn.preface {
         return Some((f, scn.reader_delay_ms));
     }
@@ -787,7 +833,7 @@ fn spawn_rt<M: Wire>(sim: &Rc<Sim>, scn: &RtScn, sh: &Rc<RefCell<RtShared>>) -> 
                 return (wt, rt);
             }
             let raw = a.wr.clone();
-            let w = tarpc::serde_transport::new::<End, M, M, Json<M, M>>(Framed::new(a, LengthDelimitedCodec::new()), Json::default());
+            let w = tarpc::serde_transport::new::<End, M, M, Json<M, M>>(Framed::new(a, rt_codec(scn.narrow)), Json::default());
             let wt = sim.spawn("writer", write_all::<M, _, _>(sim.clone(), w, scn.clone(), sh.clone(), Some(raw)));
             let (sim2, sh2, scn2) = (sim.clone(), sh.clone(), scn.clone());
             let rt = sim.spawn("reader", async move {
@@ -807,7 +853,7 @@ fn spawn_rt<M: Wire>(sim: &Rc<Sim>, scn: &RtScn, sh: &Rc<RefCell<RtShared>>) -> 
                 return (wt, rt);
             }
             let raw = a.wr.clone();
-            let w = tarpc::serde_transport::new::<End, M, M, Bincode<M, M>>(Framed::new(a, LengthDelimitedCodec::new()), Bincode::default());
+            let w = tarpc::serde_transport::new::<End, M, M, Bincode<M, M>>(Framed::new(a, rt_codec(scn.narrow)), Bincode::default());
             let wt = sim.spawn("writer", write_all::<M, _, _>(sim.clone(), w, scn.clone(), sh.clone(), Some(raw)));
             let (sim2, sh2, scn2) = (sim.clone(), sh.clone(), scn.clone());
             let rt = sim.spawn("reader", async move {
@@ -842,7 +888,7 @@ fn run_roundtrip(scn: &RtScn, tape: Tape) -> RunOutput {
         horizon,
         true,
         |sim| {
-            let sh = Rc::new(RefCell::new(RtShared { received: vec![], received_back: vec![], back_written: vec![], back_done: None, back_write_err: None, reader_done: None, enc_times: vec![] }));
+            let sh = Rc::new(RefCell::new(RtShared { received: vec![], received_back: vec![], back_written: vec![], back_done: None, back_write_err: None, reader_done: None, enc_times: vec![], refused: vec![] }));
             let (wt, rt) = if scn2.responses {
                 spawn_rt::<Response<String>>(sim, &scn2, &sh)
             } else {
@@ -878,7 +924,10 @@ fn run_roundtrip(scn: &RtScn, tape: Tape) -> RunOutput {
             let mut expected: Vec<Norm> = Vec::new();
             {
                 // rebuild norms from specs (bodies etc.); deadlines compared separately
-                for m in &scn.msgs {
+                for (mi, m) in scn.msgs.iter().enumerate() {
+                    if sh.refused.contains(&mi) {
+                        continue;
+                    }
                     let n = match m {
                         MsgSpec::Req { id, body: b, trace, span, sampled, .. } => Norm { kind: "req", id: *id, body: body(b), trace: trace_of(*trace), span: *span, sampled: *sampled, errkind: String::new(), deadline_us: 0 },
                         MsgSpec::Cancel { id, trace, span, sampled } => Norm { kind: "cancel", id: *id, body: String::new(), trace: trace_of(*trace), span: *span, sampled: *sampled, errkind: String::new(), deadline_us: 0 },
